@@ -186,6 +186,8 @@ fn preamble() -> Vec<S> {
         make("e", E::Arr(vec![])),
         // identity with a visible side effect (makes evaluation order and short-circuiting observable)
         func("fx", &["v"], vec![shout(st("fx")), S::Ret(Some(var("v")))]),
+        func("fy", &["v"], vec![shout(st("fy")), S::Ret(Some(var("v")))]),
+        func("two", &["v", "w"], vec![S::Ret(Some(E::Arr(vec![var("v"), var("w")])))]),
     ]
 }
 
@@ -313,6 +315,21 @@ impl Exprs {
             pair(&one_each, &one_each, |x, y| E::Arr(vec![x, y])),
             pair(&s0, &g(vec![st(""), st("a"), st(" "), st("ab")]), |s, p| meth(s, "split", vec![p])),
             g(vec![idx(var("a"), num("3")), E::Arr(vec![call("fx", vec![num("1")]), call("fx", vec![num("2")])])]),
+            // evaluation order inside index chains and calls: receiver, then indices left to
+            // right (two identities with different side effects), and which error comes first
+            g(vec![
+                idx(idx(var("a"), call("fx", vec![num("3")])), call("fy", vec![num("0")])),
+                idx(call("fx", vec![var("a")]), call("fy", vec![num("1")])),
+                idx(call("fx", vec![idx(var("a"), call("fy", vec![num("3")]))]), call("fy", vec![num("0")])),
+                idx(idx(var("a"), num("9")), bin(Op::Div, num("1"), num("0"))),
+                idx(idx(var("a"), bin(Op::Div, num("1"), num("0"))), num("9")),
+                idx(var("e"), call("fy", vec![num("0")])),
+                idx(E::Arr(vec![call("fx", vec![num("1")]), call("fy", vec![num("2")])]), call("fx", vec![num("1")])),
+                meth(idx(var("a"), call("fx", vec![num("3")])), "join", vec![call("fy", vec![st("-")])]),
+                meth(call("fx", vec![st("abc")]), "slice", vec![call("fy", vec![num("0")]), call("fx", vec![num("2")])]),
+                call("two", vec![idx(var("a"), call("fx", vec![num("0")])), idx(var("a"), call("fy", vec![num("1")]))]),
+                bin(Op::Add, idx(var("a"), call("fx", vec![num("0")])), idx(idx(var("a"), call("fy", vec![num("3")])), call("fx", vec![num("0")]))),
+            ]),
         ]);
 
         // ---- depth 2: operators over reduced depth<=1 operand sets (every operator pair, both
